@@ -192,7 +192,7 @@ func c07HashOracleH(c *Ctx, in sx.V, ncells int, hangs *int) bool {
 	}
 	n := len(in.Bytes)
 	for attempt := 0; attempt < 2; attempt++ {
-		res := guardedExec("c07.hash", in, c07HashTimeout)
+		res := c07Timed("c07.hash", in, c07HashTimeout)
 		switch {
 		case isAtom(res, "timeout"):
 			*hangs++
@@ -351,9 +351,9 @@ func c07Exotify(r *prng.R, dag []Node, typ byte, mask uint8, lenMode, mix int) [
 // first (the first failing member reported is the smallest)
 func c07ExoticShapes(c *Ctx, r *prng.R) []c07ShareCase {
 	var out []c07ShareCase
-	chainK := []int{6, 10, 14, 20, 60}
-	latK := []int{12, 24}
-	layers := []int{6, 12}
+	chainK := []int{6, 10, 16, 60}
+	latK := []int{12}
+	layers := []int{6}
 	if c.Thorough() {
 		chainK = []int{5, 6, 8, 10, 12, 14, 17, 20, 24, 30, 41, 60}
 		latK = []int{8, 12, 16, 24, 32, 48, 60}
@@ -361,7 +361,7 @@ func c07ExoticShapes(c *Ctx, r *prng.R) []c07ShareCase {
 	}
 	for _, k := range chainK {
 		for m := 1; m <= 4; m++ {
-			if !c.Thorough() && ((m == 1 && k != 10) || (k == 60 && m == 3)) {
+			if !c.Thorough() && ((m == 1 && k != 10) || (k == 60 && m != 2)) {
 				continue
 			}
 			dag := make([]Node, k)
@@ -395,7 +395,7 @@ func c07ExoticShapes(c *Ctx, r *prng.R) []c07ShareCase {
 		}
 		out = append(out, c07ShareCase{"diamond", dag})
 	}
-	nMixed := c.Scale(3, 60)
+	nMixed := c.Scale(2, 60)
 	for i := 0; i < nMixed; i++ {
 		k := 8 + r.Intn(c.Scale(23, 53))
 		dag := make([]Node, k)
@@ -419,15 +419,16 @@ func c07ExoticSharing(c *Ctx, r *prng.R) {
 	variant, rot := 0, 0
 	for _, sc := range c07ExoticShapes(c, r) {
 		within := treeSize(sc.dag) <= 65536
+		small := treeSize(sc.dag) <= 4096 // quick tier: only cheap prints
 		for _, et := range c07ExoticTypes {
-			// quick tier: three of the seven masks per (shape, type), rotating
+			// quick tier: two of the seven masks per (shape, type), rotating
 			// (the extracted model hashes every cell at every level: ~5 ms per
 			// cell and level); the 60-cell shapes only as pruned branches and
 			// with one mask for the other types
 			masks := allMasks
 			if !c.Thorough() {
 				rot++
-				masks = []uint8{uint8(1 + rot%7), uint8(1 + (rot+2)%7), uint8(1 + (rot+4)%7)}
+				masks = []uint8{uint8(1 + rot%7), uint8(1 + (rot+3)%7)}
 				if len(sc.dag) > 30 && et.typ != 0x01 {
 					masks = masks[:1]
 				}
@@ -471,7 +472,7 @@ func c07ExoticSharing(c *Ctx, r *prng.R) {
 				c07AllocOracle(c, in)
 				// printing does not depend on the cell type: only the shapes the
 				// budget does not cut (an over-budget print costs ~0.2 s)
-				if within && c07st.shareHangs < c07MaxHangs {
+				if within && (c.Thorough() || small) && c07st.shareHangs < c07MaxHangs {
 					c07PrintOracle(c, in, &c07st.shareHangs)
 				}
 			}
@@ -493,7 +494,7 @@ func c07Deep(c *Ctx, r *prng.R) {
 	}
 	var cases []c07ShareCase
 	for _, n := range []int{1023, 1027, 1100} {
-		if n != 1100 && !c.Thorough() {
+		if !c.Thorough() {
 			continue // chains of 1024, 1025, 1026 cells are in the adversarial list
 		}
 		dag := make([]Node, n)
@@ -502,7 +503,7 @@ func c07Deep(c *Ctx, r *prng.R) {
 	}
 	// root -> (leaf, chain of n): the deep branch is the second reference
 	for _, n := range []int{1023, 1024, 1030} {
-		if n == 1023 && !c.Thorough() {
+		if n != 1030 && !c.Thorough() {
 			continue
 		}
 		dag := make([]Node, n+2)
@@ -532,4 +533,30 @@ func c07Deep(c *Ctx, r *prng.R) {
 		}
 		c07Oracle(c, in, c.EmitGuarded("c07.parse", in, class))
 	}
+}
+
+// time spent per oracle exec kind (calibration output only)
+var c07Spent = map[string]time.Duration{}
+var c07Calls = map[string]int{}
+
+func c07Timed(kind string, in sx.V, limit time.Duration) sx.V {
+	t0 := time.Now()
+	res := guardedExec(kind, in, limit)
+	c07Spent[kind] += time.Since(t0)
+	c07Calls[kind]++
+	return res
+}
+
+var c07PhaseT = time.Now()
+var c07Phases string
+
+// c07Phase closes the generator phase that just ended (calibration output)
+func c07Phase(ended string) {
+	c07Phases += fmt.Sprintf("%s %.1f s, ", ended, time.Since(c07PhaseT).Seconds())
+	c07PhaseT = time.Now()
+}
+
+func c07SpentString() string {
+	return "wall per generator phase: " + c07Phases + "\n" + fmt.Sprintf("time in oracle execs: alloc %d calls %.1f s, print %d calls %.1f s, hash %d calls %.1f s\n",
+		c07Calls["c07.alloc"], c07Spent["c07.alloc"].Seconds(), c07Calls["c07.print"], c07Spent["c07.print"].Seconds(), c07Calls["c07.hash"], c07Spent["c07.hash"].Seconds())
 }
